@@ -117,7 +117,10 @@ static J gen_world_surface(Chooser &ch)
   c["which"] = ch.flip() ? "max depth" : "min depth";
   const bool affine = ch.chance(45);
   c["affine"] = affine;
-  const double base = ch.lattice(60e3, 200e3, 10e3);
+  // the corners' default: the bare '[value]' entry, or - for min depth - sometimes no bare entry at all (documented default 0)
+  const bool bare = !(c["which"].str() == "min depth" && !affine && ch.chance(40));
+  c["bare"] = bare;
+  const double base = bare ? ch.lattice(60e3, 200e3, 10e3) : 0.0;
   c["base"] = base;
   const double scale = fr.sph ? 10.0 : 800e3;
   const double ax = ch.real(-20e3, 20e3) / scale, ay = ch.real(-20e3, 20e3) / scale;
@@ -186,7 +189,7 @@ static Result check_world_surface(const J &c)
   feat["model"] = c.at("type").str(); feat["name"] = "f";
   feat["coordinates"] = c.at("polygon");
   J surf = J::arr();
-  surf.push(J::arr({J(base)})); // the value of every corner that is not listed
+  if (c.get("bare", J(true)).boolean()) surf.push(J::arr({J(base)})); // the value of every corner that is not listed
   std::vector<std::array<double, 3>> nodes;
   bool zero_corner_listed = false;
   for (const auto &l : c.at("listed").a)
@@ -203,6 +206,7 @@ static Result check_world_surface(const J &c)
       if (c.at("corner_listed")[i].boolean()) { if (p[0].num() == 0 || p[1].num() == 0) zero_corner_listed = true; }
       else nodes.push_back({{p[0].num(), p[1].num(), base}});
     }
+  if (surf.size() == 0) surf.push(J::arr({J(base)}));
   feat[which] = surf;
   if (is_max) { /* min depth default 0 */ } else feat["max depth"] = 600e3;
   J cm = J::obj(); cm["model"] = "uniform"; cm["compositions"] = J::arr({J(0)});
@@ -231,7 +235,7 @@ static Result check_world_surface(const J &c)
   const std::string pre = zero_corner_listed ? "zero-coordinate-corner:" : (edge_point_listed ? "value-point-on-polygon-edge:" : "");
   auto surface_at = [&](double a, double b) {
     // max depth: inside above the surface; min depth: inside below it
-    return is_max ? locate(*W, fr, a, b, 1.0, 599e3, true) : locate(*W, fr, a, b, 1.0, 599e3, false);
+    return is_max ? locate(*W, fr, a, b, 1.0, 599e3, true) : locate(*W, fr, a, b, -1.0, 599e3, false);
   };
   const double tol = 1e-3; // metres (bisection resolves to ~1e-10)
   // (a)/(e) listed points (incl. listed corners), (b) unlisted corners
